@@ -38,6 +38,19 @@ Definition dec_seed (j : J) : option N :=
   | JL [JI hi; JI lo] => Some (Z.to_N hi * 4294967296 + Z.to_N lo)%N
   | _ => None
   end.
+(* k: a plain integer, or [hi, lo] 32-bit halves for values that do not fit the interchange
+   format (usize::MAX, 2^63, ...).  The model is run with min(k, n+1) as a (unary) nat, n = number
+   of input elements: for every k > n the model's result is the same (order included) -
+   Props/C14.v: c14_large_k_irrelevant / c14_large_k_irrelevant_keyed, Proofs/ReservoirBigK.v:
+   expr_big_k for the expression kind. *)
+Definition dec_k (j : J) : option Z :=
+  match j with
+  | JI z => Some z
+  | JL [JI hi; JI lo] => Some (hi * 4294967296 + lo)
+  | _ => None
+  end.
+Definition clamp_k (kz : Z) (n : nat) : nat := Z.to_nat (Z.min kz (Z.of_nat (S n))).
+
 Definition dec_pair (j : J) : option (Z * Z) :=
   match j with JL [JI k; JI v] => Some (k, v) | _ => None end.
 Definition dec_pairs (j : J) : option (list (Z * Z)) :=
@@ -205,38 +218,38 @@ Fixpoint eval_expr (k : nat) (seed : N) (e : J) : option (pracc Z * list Z) :=
 Definition check_C14 (kind : string) (input output : J) : verdict :=
   if String.eqb kind "g" then
     match input, output with
-    | JL [JI entry; JI k; js; JI mode; jd], JL [JS "ok"; r1; r2] =>
-        match dec_seed js, jints jd with
-        | Some seed, Some data =>
-            let k := Z.to_nat k in
+    | JL [JI entry; jk; js; JI mode; jd], JL [JS "ok"; r1; r2] =>
+        match dec_k jk, dec_seed js, jints jd with
+        | Some kz, Some seed, Some data =>
+            let k := clamp_k kz (List.length data) in
             let m := model_g entry k seed mode data in
             ok_verdict (jeqb r1 m && jeqb r2 m)
                        (prop_g entry k data r1 && prop_g entry k data r2 && jeqb r1 r2)
-        | _, _ => malformed
+        | _, _, _ => malformed
         end
-    | JL [JI _; JI _; _; JI _; _], _ => ok_verdict false false      (* err / panic *)
+    | JL [JI _; _; _; JI _; _], _ => ok_verdict false false      (* err / panic *)
     | _, _ => malformed
     end
   else if String.eqb kind "k" then
     match input, output with
-    | JL [JI entry; JI k; js; JI mode; jd], JL [JS "ok"; r1; r2] =>
-        match dec_seed js, dec_pairs jd with
-        | Some seed, Some data =>
-            let k := Z.to_nat k in
+    | JL [JI entry; jk; js; JI mode; jd], JL [JS "ok"; r1; r2] =>
+        match dec_k jk, dec_seed js, dec_pairs jd with
+        | Some kz, Some seed, Some data =>
+            let k := clamp_k kz (List.length data) in
             let m := model_k entry k seed mode data in
             ok_verdict (jeqb r1 m && jeqb r2 m)
                        (prop_k entry k data r1 && prop_k entry k data r2 && jeqb r1 r2)
-        | _, _ => malformed
+        | _, _, _ => malformed
         end
-    | JL [JI _; JI _; _; JI _; _], _ => ok_verdict false false
+    | JL [JI _; _; _; JI _; _], _ => ok_verdict false false
     | _, _ => malformed
     end
   else if String.eqb kind "cmpg" then
     match input, output with
-    | JL [JI entry; JI k; js; JI m1; JI m2; jd], JL [JS "ok"; o1; o2] =>
-        match dec_seed js, jints jd with
-        | Some seed, Some data =>
-            let k := Z.to_nat k in
+    | JL [JI entry; jk; js; JI m1; JI m2; jd], JL [JS "ok"; o1; o2] =>
+        match dec_k jk, dec_seed js, jints jd with
+        | Some kz, Some seed, Some data =>
+            let k := clamp_k kz (List.length data) in
             let agree := jeqb o1 (model_g entry k seed m1 data) &&
                          jeqb o2 (model_g entry k seed m2 data) in
             let same := match canon_g entry o1, canon_g entry o2 with
@@ -244,17 +257,17 @@ Definition check_C14 (kind : string) (input output : J) : verdict :=
                         | _, _ => false
                         end in
             V agree same (cmp_known k m1 m2 (map (fun v => (0, v)) data)) false
-        | _, _ => malformed
+        | _, _, _ => malformed
         end
-    | JL [JI _; JI _; _; JI _; JI _; _], _ => ok_verdict false false
+    | JL [JI _; _; _; JI _; JI _; _], _ => ok_verdict false false
     | _, _ => malformed
     end
   else if String.eqb kind "cmpk" then
     match input, output with
-    | JL [JI entry; JI k; js; JI m1; JI m2; jd], JL [JS "ok"; o1; o2] =>
-        match dec_seed js, dec_pairs jd with
-        | Some seed, Some data =>
-            let k := Z.to_nat k in
+    | JL [JI entry; jk; js; JI m1; JI m2; jd], JL [JS "ok"; o1; o2] =>
+        match dec_k jk, dec_seed js, dec_pairs jd with
+        | Some kz, Some seed, Some data =>
+            let k := clamp_k kz (List.length data) in
             let agree := jeqb o1 (model_k entry k seed m1 data) &&
                          jeqb o2 (model_k entry k seed m2 data) in
             let same := match canon_k entry o1, canon_k entry o2 with
@@ -262,24 +275,29 @@ Definition check_C14 (kind : string) (input output : J) : verdict :=
                         | _, _ => false
                         end in
             V agree same (cmp_known k m1 m2 data) false
-        | _, _ => malformed
+        | _, _, _ => malformed
         end
-    | JL [JI _; JI _; _; JI _; JI _; _], _ => ok_verdict false false
+    | JL [JI _; _; _; JI _; JI _; _], _ => ok_verdict false false
     | _, _ => malformed
     end
   else if String.eqb kind "expr" then
     match input, output with
-    | JL [JI k; js; e], JL [JS "ok"; o] =>
-        let k := Z.to_nat k in
-        match dec_seed js with
-        | Some seed =>
-            match eval_expr k seed e, jints o with
-            | Some (a, m), Some s => ok_verdict (zlist_eqb s (finish a)) (good_sample k m s)
-            | _, _ => malformed
+    | JL [jk; js; e], JL [JS "ok"; o] =>
+        match dec_k jk, dec_seed js with
+        | Some kz, Some seed =>
+            (* the consumed values do not depend on k: evaluate once with k = 0 to count them *)
+            match eval_expr 0 seed e with
+            | Some (_, m0) =>
+                let k := clamp_k kz (List.length m0) in
+                match eval_expr k seed e, jints o with
+                | Some (a, m), Some s => ok_verdict (zlist_eqb s (finish a)) (good_sample k m s)
+                | _, _ => malformed
+                end
+            | None => malformed
             end
-        | None => malformed
+        | _, _ => malformed
         end
-    | JL [JI _; _; _], _ => ok_verdict false false
+    | JL [_; _; _], _ => ok_verdict false false
     | _, _ => malformed
     end
   else malformed.
